@@ -5,6 +5,7 @@ import (
 	"context"
 	"encoding/json"
 	"errors"
+	"io"
 	"mime"
 	"net/http"
 	"strconv"
@@ -191,6 +192,11 @@ func (s *serveOpts) bulk(c echo.Context) error {
 		In:                c.Request().Body,
 		DefaultPrivateKey: s.privateKey,
 	}
+	// In full duplex mode the rest of the request stream has to be consumed
+	// before the handler returns (the stream stops being read at the first
+	// malformed request), otherwise the server reads it while the connection
+	// is already waiting for the next request.
+	defer io.Copy(io.Discard, c.Request().Body) //nolint:errcheck
 	for result := range cli.Bulk(ctx, opts) {
 		if err := enc.Encode(result); err != nil {
 			return err
